@@ -11,6 +11,15 @@ T_PATHS = 'bounded-exhaustive exploration of the row transition system (all row 
 T_HIST = 'explicit-state BFS over call histories on live objects with reflection snapshots'
 
 CHECKS = {
+    'C06': ("Every enabled row sequence up to depth 3-5 (data, barline, every split, every join, every single termination) for 1-4 spines, and for each resulting document every subset "
+            "of spine ids (ascending, descending, duplicated, set, tuple), every subset of the header types present and every combination; each export must be string-identical to "
+            "kernpy's own full export with the columns of the unselected spines (per the model's column->spine map) deleted and all-null lines dropped; the spine-type query must "
+            "equal the projected header line.",
+            'Trusted: column->spine map of kv/model.py (itself checked against the tree in C02).', T_PATHS, 'DESIGN.md §3 C06'),
+    'C17': ("Every enabled row sequence up to depth 3-5 over data, interpretation, field-comment, barline, global-comment rows and every split/join/termination, with and without "
+            "pre-header comments; for each document the full listing, 37 single-category filters and a rotating eighth of 143 larger filters are compared with the model's depth-first "
+            "order and documented categories; unique listings, frequencies, encodings listings, comment query (with key / clear) and monophony are derived and compared.",
+            'Trusted: kv/model.py depth-first order, kv/alphabet.py documented categories, kv/catref.py closure.', T_PATHS, 'DESIGN.md §3 C17'),
     'C03': ("Every document of a bounded space (all row sequences up to depth 3/4 over data, interpretation, comment, barline, null, split, join, global-comment rows for 9-24 header "
             "configurations; all <=2 (3) edits of a backbone score; every corpus member in every column) is imported and exported in plain and extended form, and the result is "
             "compared cell by cell with a reference exporter that works on the generator's abstract description of each cell (never on kernpy's parse).",
